@@ -76,6 +76,20 @@ func eventDatagram(rng *rand.Rand, lt *layoutTables, cls string, tag uint32) []b
 		m[1] = []byte{0x21, 0x94, 0x00, 0xb0}[rng.Intn(4)]
 	case "badproto":
 		m[0] = []byte{0x18, 0x00, 0xff, 0x16}[rng.Intn(4)]
+	case "impossible":
+		// decimal digits that are no calendar date / time of day, in the system date, the system time or the event
+		// timestamp: per C02's rule the event may be delivered with that field as its zero 'no value', or refused with
+		// an error - never delivered with another date
+		switch rng.Intn(4) {
+		case 0:
+			copy(m[51:54], [][]byte{{0x23, 0x02, 0x30}, {0x23, 0x04, 0x31}, {0x23, 0x02, 0x29}, {0x24, 0x13, 0x01}, {0x24, 0x06, 0x00}}[rng.Intn(5)])
+		case 1:
+			copy(m[37:40], [][]byte{{0x24, 0x00, 0x00}, {0x12, 0x60, 0x00}, {0x23, 0x59, 0x60}, {0x25, 0x61, 0x61}}[rng.Intn(4)])
+		case 2:
+			copy(m[20:24], [][]byte{{0x20, 0x23, 0x02, 0x30}, {0x20, 0x23, 0x04, 0x31}, {0x21, 0x00, 0x02, 0x29}, {0x20, 0x24, 0x00, 0x10}}[rng.Intn(4)])
+		default:
+			copy(m[24:27], [][]byte{{0x24, 0x00, 0x00}, {0x12, 0x60, 0x00}, {0x23, 0x59, 0x60}}[rng.Intn(3)])
+		}
 	case "malformed":
 		if rng.Intn(2) == 0 {
 			m[[]int{13, 28, 29, 30, 31, 32, 33, 34, 35}[rng.Intn(9)]] = byte(2 + rng.Intn(254))
@@ -87,7 +101,7 @@ func eventDatagram(rng *rand.Rand, lt *layoutTables, cls string, tag uint32) []b
 	return m
 }
 
-var evClasses = []string{"valid", "valid", "valid", "valid19", "badlen", "serial0", "badcode", "badproto", "malformed"}
+var evClasses = []string{"valid", "valid", "valid", "valid19", "badlen", "serial0", "badcode", "badproto", "malformed", "impossible"}
 
 func isValidClass(c string) bool { return c == "valid" || c == "valid19" }
 
@@ -142,7 +156,9 @@ func listenerScenario(id string, seed int64, lt *layoutTables, cycles int, recs 
 				defer c.Close()
 				for i, cls := range classes {
 					// window flow control: at most 6 datagrams without a call-back, so the kernel queue cannot drop
-					for atomic.LoadInt32(&total)-atomic.LoadInt32(&l.callbacks) >= 6 {
+					// (bounded: a listener that has stopped calling back must not hang the harness - the trace then lacks
+					// the call-backs and is rejected)
+					for t0 := time.Now(); atomic.LoadInt32(&total)-atomic.LoadInt32(&l.callbacks) >= 6 && time.Since(t0) < 2*time.Second; {
 						time.Sleep(200 * time.Microsecond)
 					}
 					tag := uint32(s)*100000 + uint32(i+1)
@@ -150,8 +166,11 @@ func listenerScenario(id string, seed int64, lt *layoutTables, cycles int, recs 
 					b := eventDatagram(r, lt, cls, tag)
 					rmu.Unlock()
 					abs := "bad"
-					if isValidClass(cls) {
+					if isValidClass(cls) || cls == "impossible" {
 						abs = "valid"
+						if cls == "impossible" {
+							abs = "either" // an event (with the field as 'no value') or an error: the specification allows both
+						}
 						smu.Lock()
 						sentBytes[tag] = b
 						smu.Unlock()
